@@ -72,7 +72,9 @@ SCALAR_TYPES = ("Boolean", "Boolean+Auto", "Integer", "SignedInteger", "Port", "
 LIST_TYPES = ("LineList", "CommaList", "RouterList", "PortLines")
 ALL_TYPES = SCALAR_TYPES + LIST_TYPES
 # types whose GETCONF answer can be the bare "250 Name" (value NULL / no lines)
-CAN_BE_UNSET = ("String", "Filename", "LineList", "PortLines")
+# (a RouterList is bare when NULL; a CommaList is normally "Name=" when empty, but control-spec allows the
+# bare form for any option at its default, and txtorcon treats it alike)
+CAN_BE_UNSET = ("String", "Filename", "LineList", "PortLines", "CommaList", "RouterList")
 
 
 def opt(name, type, value=None, default=None, alt=None):
